@@ -141,7 +141,7 @@ def setup_logging():
 
 # KeyError has no counterpart in the model (since repair 381463f no modelled path raises it):
 # code 4 can never equal a model output, so a KeyError is always a disagreement (and an oracle failure in-domain)
-EXC_CODE = {"ValueError": 1, "OverflowError": 2, "TypeError": 3, "KeyError": 4}
+EXC_CODE = {"ValueError": 1, "OverflowError": 2, "TypeError": 3, "KeyError": 4, "AssertionError": 5}
 
 
 DTYPES = {"int16": 2, "uint16": 2, "int8": 1, "uint8": 1, "int32": 4, "float32": 4, "int64": 8, "float64": 8}
@@ -194,7 +194,7 @@ def observe_reader(sr, c, data, obs):
     shp = tuple(int(x) for x in sr.shape)
     obs["shape"] = shp
     obs["rl"] = float(sr.rl)
-    fa = sr.meta.get("fileTimeSecs")
+    fa = sr.meta.get("fileTimeSecs") if sr.meta is not None else None
     obs["fts_after"] = None if fa is None else float(fa)
     bad = []
     # reads: whole array, last frame, over-long slice; values against the file prefix
@@ -243,13 +243,20 @@ def impl_flat(td, c, data):
             fid.truncate(c["nbytes"])
     else:
         fbin.write_bytes(data.buf[:c["nbytes"]])
+    kw = reader_kwargs(c)
+    if c.get("meta_arg"):          # the meta file under an unrelated name, given through meta_file=
+        fmeta = td / "elsewhere_described.meta"
+        kw["meta_file"] = fmeta if c["meta_arg"] == "path" else Path(str(fmeta))
+    if c.get("sort") is False:
+        kw["sort"] = False
     fmeta.write_text(meta_text(c["kind"], c["nc"], c["fs_text"], c["fts_text"], c["size_val"]))
     cls = spikeglx.OnlineReader if c["reader"] == "online" else spikeglx.Reader
     _CATCH.n = 0
     obs = {}
     sr = None
+    entry = fmeta if c.get("entry") == "meta" else fbin     # Reader(<the .meta file>) resolves the .bin itself
     try:
-        sr = cls(str(fbin) if c.get("as_str") else fbin, **reader_kwargs(c))
+        sr = cls(str(entry) if c.get("as_str") else entry, **kw)
     except (ValueError, OverflowError, TypeError, KeyError) as e:
         obs["exc"] = type(e).__name__
         obs["exc_msg"] = str(e)[:120]
@@ -303,7 +310,12 @@ def impl_cbin(td, c, data, base_cbin):
     _CATCH.n = 0
     obs = {}
     try:
-        sr = spikeglx.Reader(out, ignore_warnings=bool(c["iw"]))
+        kw = {"ignore_warnings": bool(c["iw"])}
+        if c.get("ch_arg"):        # the .ch header under an unrelated name, given through ch_file=
+            other = work / "header_kept_elsewhere.ch"
+            out.with_suffix(".ch").rename(other)
+            kw["ch_file"] = other
+        sr = spikeglx.Reader(out, **kw)
     except (ValueError, OverflowError, TypeError, KeyError) as e:
         obs["exc"] = type(e).__name__
         obs["exc_msg"] = str(e)[:120]
@@ -473,6 +485,10 @@ def enc_inp(c):
     else:
         has = 1
         ftm, fte = f2me(float(c["fts_text"]))
+    if c["mode"] == "nometa":
+        o = lambda v: [0, 0] if v is None else [1, int(v)]
+        return [3, 1 if c["reader"] == "online" else 0, isz_of(c), c["nbytes"]] + o(c["nc_arg"]) + o(c["ns_arg"]) + \
+            o(c["fs_arg"])
     if c["mode"] == "seq":
         return [2, 1 if c["reader"] == "online" else 0, c["iw"], isz_of(c), c["nc"], fsm, fse, has, ftm, fte, c["size0"],
                 c["open_flag"]] + [x for o in c["ops"] for x in o]
@@ -488,6 +504,18 @@ def in_domain(c):
     if c["mode"] == "seq":
         sizes = [c["size0"]] + [a for code, a in c["ops"] if code == 0]
         return min(sizes) >= fbytes(c) and not (c["reader"] == "offline" and c["fts_text"] is None)
+    if c["mode"] == "nometa":
+        # no metadata to disagree with: the property's predicate applies where the reader itself determines the
+        # frame count (OnlineReader; Reader guessing from the size) or the caller states the true one
+        guess = 384 if c["nbytes"] % 768 == 0 else 385 if c["nbytes"] % 770 == 0 else None
+        args_ok = guess is not None or None not in (c["nc_arg"], c["ns_arg"], c["fs_arg"])
+        if c.get("nc_expected") is None or not args_ok or c["nbytes"] < fbytes(c):
+            return False
+        if c["reader"] == "online":
+            return True
+        if c["ns_arg"] is None:
+            return c["nc_arg"] is None and c.get("dtype", "int16") == "int16"
+        return c["ns_arg"] == c["nbytes"] // fbytes(c) and c["ns_arg"] > 0
     if c["mode"] == "flat":
         if c["nbytes"] < fbytes(c):
             return False
@@ -503,14 +531,14 @@ def oracle(c, obs):
     if "exc" in obs:
         return ["opening raised %s" % obs["exc"]]
     nc = c["nc"]
-    want = c["nbytes"] // fbytes(c) if c["mode"] == "flat" else c["chns"]
+    want = c["nbytes"] // fbytes(c) if c["mode"] in ("flat", "nometa") else c["chns"]
     if obs["ns"] != want:
         bad.append("exposes %d frames, the file holds %d complete frames" % (obs["ns"], want))
     if obs["shape"] != (obs["ns"], nc) or obs["nc"] != nc:
         bad.append("shape %s is not (ns, nc)" % (obs["shape"],))
     if obs["rl"] != obs["ns"] / float(c["fs_text"]):
         bad.append("duration rl does not match the exposed sample count")
-    if c["mode"] == "flat" and obs["ns"] * fbytes(c) > c["nbytes"]:
+    if c["mode"] in ("flat", "nometa") and obs["ns"] * fbytes(c) > c["nbytes"]:
         bad.append("exposed array is longer than the file")
     bad += obs.get("read_bad", [])
     return bad
@@ -543,7 +571,10 @@ def gen_flat(ctx):
             size_val = size
         cases.append({"mode": "flat", "reader": reader, "iw": iw, "kind": kind, "nc": nc, "nbytes": nbytes,
                       "fs_text": fs_text, "claim": claim, "fts_text": fts_text, "size_val": size_val,
-                      "sparse": sparse, "as_str": len(cases) % 3 == 1})
+                      "sparse": sparse, "as_str": len(cases) % 3 == 1,
+                      "meta_arg": (None, "path", None, None, None, None, None)[len(cases) % 7],
+                      "entry": "meta" if (len(cases) % 11 == 5 and reader == "offline" and len(cases) % 7 != 1) else None,
+                      "sort": False if (kind == "imec" and len(cases) % 5 == 2) else None})
 
     for nc in (1, 8, 385):
         fb = 2 * nc
@@ -690,6 +721,79 @@ def gen_dtype(ctx):
     return cases
 
 
+def impl_nometa(td, c, data):
+    """Reader / OnlineReader on a binary WITHOUT meta file: c: reader, nc_arg, ns_arg, fs_arg (int or None), dtype, nbytes"""
+    import spikeglx
+    for f in td.iterdir():
+        f.unlink()
+    fbin = td / "raw_g0_t0.imec0.ap.bin"
+    if c["nbytes"] > len(data.buf):
+        c["sparse"] = True
+        with open(fbin, "wb") as fid:
+            fid.truncate(c["nbytes"])
+    else:
+        fbin.write_bytes(data.buf[:c["nbytes"]])
+    kw = {k: c[k + "_arg"] for k in ("nc", "ns", "fs") if c[k + "_arg"] is not None}
+    if c.get("dtype", "int16") != "int16":
+        kw["dtype"] = c["dtype"]
+    cls = spikeglx.OnlineReader if c["reader"] == "online" else spikeglx.Reader
+    _CATCH.n = 0
+    obs = {}
+    try:
+        sr = cls(str(fbin) if c.get("as_str") else fbin, **kw)
+    except (ValueError, OverflowError, TypeError, KeyError, AssertionError) as e:
+        obs["exc"] = type(e).__name__
+        obs["exc_msg"] = str(e)[:120]
+        return obs
+    try:
+        obs["warned"] = 1 if _CATCH.n else 0
+        obs["fs"] = float(sr.fs)
+        if c.get("nc_expected") is None:
+            c["nc"] = int(sr.nc)
+        observe_reader(sr, c, data, obs)
+    finally:
+        try:
+            sr.close()
+        except Exception:
+            pass
+    return obs
+
+
+def gen_nometa(ctx):
+    """binaries without a meta file: channel count guessed from the size (multiples of 768 / 770 bytes) or the
+    caller's nc= ns= fs=; Reader and OnlineReader"""
+    cases = []
+    n = 0
+    sizes = [768, 2 * 768, 3 * 768, 770, 2 * 770, 3 * 770, 768 * 385, 767, 769, 771, 768 + 16, 2 * 770 + 5, 0,
+             16, 17, 31, 32, 33, 48, 100, 1540 + 769]
+    if ctx.thorough():
+        sizes += list(range(1, 64)) + [768 * k for k in range(4, 12)] + [770 * k + j for k in (1, 4) for j in (1, 2, 769)]
+    for nbytes in sizes:
+        for dtype in ("int16", "int32") if nbytes % 5 != 3 else ("int16",):
+            isz = DTYPES[dtype]
+            for nc_arg in (None, 1, 8, 385):
+                fb = isz * (nc_arg or 384)
+                k = nbytes // fb
+                for ns_arg in (None, k, k + 1, max(k - 1, 0)):
+                    for fs_arg in (None, 30000, 2500):
+                        n += 1
+                        if not ctx.thorough() and n % 3 and not (nc_arg is None and ns_arg is None):
+                            continue
+                        for reader in ("offline", "online"):
+                            if reader == "online" and (n % 2 or nbytes > 4000):
+                                continue
+                            if fs_arg == 0:
+                                continue
+                            guess = 384 if nbytes % 768 == 0 else 385 if nbytes % 770 == 0 else None
+                            ncx = nc_arg or guess
+                            cases.append({"mode": "nometa", "reader": reader, "iw": 0, "kind": "none", "nbytes": nbytes,
+                                          "nc": ncx if ncx else 1, "nc_expected": ncx,
+                                          "dtype": dtype, "nc_arg": nc_arg, "ns_arg": ns_arg, "fs_arg": fs_arg,
+                                          "fs_text": str(fs_arg or 30000), "fts_text": None, "size_val": None,
+                                          "claim": "none", "as_str": n % 2 == 0})
+    return cases
+
+
 def gen_cbin(ctx):
     """(base description, cases): .cbin chopped to fewer chunks than the meta file announces"""
     groups = []
@@ -706,7 +810,7 @@ def gen_cbin(ctx):
                                      ("less", ftext(max(chns - 2, 0) / fs)), ("half", ftext((chns + 0.5) / fs))):
                     for iw in ((0, 1) if cl == "full" else (0,)):
                         cs.append({"mode": "cbin", "kind": kind, "nc": nc, "nchunks": nch, "fs_text": fs_text,
-                                   "claim": cl, "fts_text": fts_text, "iw": iw,
+                                   "claim": cl, "fts_text": fts_text, "iw": iw, "ch_arg": len(cs) % 4 == 1,
                                    "size_val": nframes * nc * 2, "reader": "offline"})
             cs.append({"mode": "cbin", "kind": kind, "nc": nc, "nchunks": 2, "fs_text": fs_text, "claim": "none",
                        "fts_text": None, "iw": 0, "size_val": None, "reader": "offline"})
@@ -717,7 +821,8 @@ def gen_cbin(ctx):
 def describe(c):
     return {k: c.get(k) for k in ("mode", "reader", "iw", "kind", "nc", "nbytes", "fs_text", "claim", "fts_text",
                                   "size_val", "sparse", "nchunks", "chns", "chnc", "size0", "open_flag", "ops", "as_str",
-                                  "pattern", "dtype", "dtype_as")
+                                  "pattern", "dtype", "dtype_as", "nc_arg", "ns_arg", "fs_arg", "nc_expected", "meta_arg",
+                                  "entry", "sort", "ch_arg")
             if k in c}
 
 
@@ -727,9 +832,19 @@ def tags_of(c, obs):
             "ignore_warnings": bool(c["iw"]), "exception": obs.get("exc", "none")}
 
 
-def run_cases(ctx, td, data, flat, groups, seqs=()):
+def run_cases(ctx, td, data, flat, groups, seqs=(), nometa=()):
     """-> list of (case, obs)"""
     done = []
+    nwork = td / "nometa"
+    nwork.mkdir()
+    for c in nometa:
+        try:
+            obs = impl_nometa(nwork, c, data)
+        except Exception as e:
+            ctx.fail("meta-less reader raised an unexpected %s: %s" % (type(e).__name__, str(e)[:200]), describe(c),
+                     {"mode": "nometa", "reader": c["reader"], "exception": type(e).__name__})
+            continue
+        done.append((c, obs))
     swork = td / "seq"
     swork.mkdir()
     for c in seqs:
@@ -776,7 +891,7 @@ def run(ctx):
     data = Data(random.Random(ctx.seed ^ 0xC11), 40 * 770 + 64)
     td = common.tmpdir("C11_run_")
     try:
-        done = run_cases(ctx, td, data, flat, groups, seqs)
+        done = run_cases(ctx, td, data, flat, groups, seqs, gen_nometa(ctx))
     finally:
         shutil.rmtree(td, ignore_errors=True)
     dist = {"flat_offline": 0, "flat_online": 0, "cbin": 0, "sparse_large": 0, "partial_trailing_frame": 0,
@@ -784,7 +899,9 @@ def run(ctx):
             "meta_in_progress": 0, "below_one_frame": 0, "fractional_fs": 0, "imec_meta": 0,
             "outcome_opened": 0, "outcome_exception": 0, "fts_rewritten_warned": 0,
             "histories": 0, "history_steps": 0, "history_open_attempts": 0, "history_online": 0,
-            "history_offline_claim_equals_size_at_construction": 0, "path_given_as_str": 0, "dtype_not_int16": 0}
+            "history_offline_claim_equals_size_at_construction": 0, "path_given_as_str": 0, "dtype_not_int16": 0,
+            "no_meta_file": 0, "no_meta_guessed_nc": 0, "meta_file_argument": 0, "entry_through_meta_path": 0,
+            "sort_false": 0, "ch_file_argument": 0}
     nontrivial = set()
     for c, obs in done:
         dist["path_given_as_str"] += bool(c.get("as_str"))
@@ -813,7 +930,13 @@ def run(ctx):
         dist["sparse_large"] += bool(c.get("sparse"))
         dist["fractional_fs"] += "." in c["fs_text"]
         dist["imec_meta"] += c["kind"] == "imec"
-        dist["meta_in_progress"] += c["fts_text"] is None or c["size_val"] is None
+        dist["meta_in_progress"] += c["mode"] != "nometa" and (c["fts_text"] is None or c["size_val"] is None)
+        dist["no_meta_file"] += c["mode"] == "nometa"
+        dist["no_meta_guessed_nc"] += c["mode"] == "nometa" and c["nc_arg"] is None and "exc" not in obs
+        dist["meta_file_argument"] += bool(c.get("meta_arg"))
+        dist["entry_through_meta_path"] += c.get("entry") == "meta"
+        dist["sort_false"] += c.get("sort") is False
+        dist["ch_file_argument"] += bool(c.get("ch_arg"))
         dist["outcome_opened"] += "exc" not in obs
         dist["outcome_exception"] += "exc" in obs
         dist["fts_rewritten_warned"] += obs.get("warned", 0)
@@ -875,6 +998,10 @@ def replay(ctx, data_json):
             w = td / "seq"
             w.mkdir()
             obs = impl_seq(w, c, data)
+        elif c["mode"] == "nometa":
+            w = td / "nometa"
+            w.mkdir()
+            obs = impl_nometa(w, c, data)
         elif c["mode"] == "flat":
             w = td / "flat"
             w.mkdir()
